@@ -346,11 +346,18 @@ func runC05(w *W) {
 		judge("no-structurals-tail", append(append([]byte{}, base...), bytes.Repeat([]byte("a"), 300)...))
 		judge("valid-large", base)
 	}
-	// a carried (stripped) index followed by no further structural: buffers filling exactly at a quote/atom
-	for _, k := range []int{1406, 1407, 1408, 2815, 2816, 4223} {
-		for _, tail := range []string{`"` + strings.Repeat("a", 100), `"` + strings.Repeat("a", 100) + `"`, "tru" + strings.Repeat("e", 90), "1" + strings.Repeat("2", 90), `"` + strings.Repeat("a", 30), `"a",` + strings.Repeat(" ", 100)} {
-			judge("carry-then-nothing", append(bytes.Repeat([]byte("["), k), tail...))
-			judge("carry-then-nothing", append(append([]byte("["), bytes.Repeat([]byte("0,"), k/2)...), tail...))
+	w.genCarryThenNothing(judge)
+	// long stretches without a structural character, alone and right behind a buffer that fills
+	// at a quote (carried index), terminated and not
+	for _, L := range []int{65536, 131072, 200000} {
+		x := strings.Repeat("x", L)
+		for _, doc := range []string{
+			`["` + x + `",1]`, `["` + x, `[1,` + strings.Repeat(" ", L) + `2]`, `[1,` + strings.Repeat(" ", L),
+			`[` + strings.Repeat("0,", 703) + `"` + x + `"]`, `[` + strings.Repeat("0,", 703) + `"` + x,
+			`[` + strings.Repeat("0,", 703) + `1` + strings.Repeat("2", L),
+			`{"a":"` + x + "\"}\n{\"b\":1}", strings.Repeat(`{"a":0}`+"\n", 282) + `{"a":"` + x + "\"}\n{\"b\":1}",
+		} {
+			judge("no-structurals-long", []byte(doc))
 		}
 	}
 	// nesting up to a depth the sweep's recursive readers can take
